@@ -406,3 +406,47 @@ def w4(prog):
     for w in words:
         inst.append(("W4:" + w, {"evaluations": n // len(words)}))
     return inst, findings
+
+
+def w5(prog):
+    """which constants of a per-machine symbol-type / binding domain are machine-specific: `most_enclosing` of every per-machine STT and
+    STB domain class (macro-generated, one per architecture) interpreted from source on the codes 0..15 of the 4-bit fields: codes
+    below STT_LOOS / STB_LOOS (10) belong to the generic ELF domain - equal across machines - and every code from LOOS through HIPROC
+    (15, inclusive) stays in the machine's own domain, so that e.g. STT_ARM_16BIT never equals code 15 of another machine."""
+    from cxxobj import CxxEvaluator, Obj, OutOfBounds
+    from absint import Thrown
+    inst, findings = [], []
+    fs = [f for f in prog.funcs.values() if f["n"] == "most_enclosing" and f.get("body") is not None and prog.rel(f["file"]) == "libzwerg/value-symbol.cc"]
+    if len(fs) < 4:
+        raise Broken("only %d per-machine most_enclosing overrides found in value-symbol.cc (floor 4)" % len(fs))
+    sign = {c["n"]: ("enum", c["n"], c["v"]) for e in prog.enums.values() if e["q"] == "signedness" for c in e["consts"]}
+    if set(sign) < {"sign", "unsign"}:
+        raise Broken("enum signedness vanished")
+    hooks = {"elfsym_stt_dom": lambda ev, o, a: ("generic", "stt", int(a[0])), "elfsym_stb_dom": lambda ev, o, a: ("generic", "stb", int(a[0]))}
+    ev = CxxEvaluator(hooks, {}, prog=prog)
+    for f in sorted(fs, key=lambda f: f["fid"]):
+        cls = f.get("cls", "?")
+        key = "W5:" + cls.split("::")[-1]
+        this = Obj(cls)
+        bad = None
+        for v in range(0, 16):
+            for sg in ("unsign", "sign"):
+                m = Obj("mpz_class")
+                m.m_u, m.m_i, m.m_sign = v, v, sign[sg]
+                try:
+                    r = ev.call(f, this, [m])
+                except (OutOfBounds, Thrown) as x:
+                    raise Broken("%s::most_enclosing cannot be evaluated: %s" % (cls, x))
+                generic = isinstance(r, tuple) and r and r[0] == "generic"
+                if generic and r[2] != 0:
+                    bad = bad or "code %d is placed in the domain of machine %d" % (v, r[2])
+                want_generic = v < 10
+                if generic != want_generic and bad is None:
+                    bad = "code %d is %s" % (v, "treated as generic although it lies in the OS/processor-specific range 10..15: it would compare equal to the same code of any other machine"
+                                             if generic else "kept machine-specific although it is a generic ELF code: the same type/binding of two machines would compare unequal")
+                if not generic and r is not this and bad is None:
+                    bad = "code %d is placed in another object than the domain itself" % v
+        inst.append((key, {"codes": 16}))
+        if bad:
+            findings.append({"key": key, "where": "libzwerg/" + f["l"], "msg": "%s: %s" % (cls.split("::")[-1], bad), "detail": None})
+    return inst, findings
